@@ -95,10 +95,12 @@ def obligations(tier):
             obs.append(routes_ob(prog, cls, which))
     for cls in drivers.COND_CLASSES:
         obs.append(evidence_ob(prog, cls))
+    from .common import logdomain_ob
+    obs.append(logdomain_ob(prog, "logdomain"))
     return obs
 
 
-FLOORS = {"group:routes": 8, "group:evidence": 4}
+FLOORS = {"group:routes": 8, "group:evidence": 4, "group:logdomain": 1}
 LEVEL = "other"
 EXPLANATION = ("PARTIAL: for every linear conditional class and a GENERIC Gaussian prior (atoms satisfying the representation invariant) the posterior after one observation is the "
                "same normal form through the three routes of the property, and the log-integral of prior x likelihood factor equals the predictive log-density of the marginal "
